@@ -5,6 +5,8 @@
 import IpldModel.Model.Link
 import IpldModel.Props.C02
 import IpldModel.Generated.LinkSkeletons
+import IpldModel.Lemmas.LinkMore
+import IpldModel.Props.C04
 namespace Ipld.Props.C05
 open Ipld Ipld.Link
 
@@ -225,6 +227,691 @@ theorem load_store_dagcbor (s : Store) (p : Proto) (v : DM) (l : Lnk)
     subst he
     simp [dagcborCodec, rt, Except.toOption]
   · simp at he
+
+/-! ## Prototype facts (identity, truncation, CIDv0) -/
+
+/-- Everything a built link owes to its prototype and to the hash: the multihash code is the
+    prototype's, the digest is the truncated hash, and version and codec are the prototype's for CIDv1
+    and fixed (0, dag-pb) for CIDv0.  Nothing else enters: the link is a function of (prototype, digest). -/
+theorem buildLink_fields (p : Proto) (h : Bytes) (l : Lnk) (hb : buildLink p h = some l) :
+    l.mhType = p.mhType ∧ truncate p h = some l.digest ∧
+      ((p.version = 0 ∧ l.version = 0 ∧ l.codec = 0x70) ∨ (p.version = 1 ∧ l.version = 1 ∧ l.codec = p.codec)) := by
+  obtain ⟨_, ht, hm⟩ := buildLink_some hb
+  obtain ⟨a, _, c⟩ := mkLink_some hm
+  refine ⟨a, ht, ?_⟩
+  rcases c with ⟨x, y, z, _⟩ | c
+  · exact Or.inl ⟨x, y, z⟩
+  · exact Or.inr c
+
+/-- An identity "hash" is never truncated, whatever `MhLength` the prototype carries: the digest of the
+    link is the whole hasher output. -/
+theorem identity_never_truncated (p : Proto) (h : Bytes) (l : Lnk) (hi : p.mhType = identityCode)
+    (hb : buildLink p h = some l) : truncate p h = some h ∧ l.digest = h := by
+  have ht := truncate_identity p h hi
+  refine ⟨ht, ?_⟩
+  have := (buildLink_some hb).2.1
+  rw [ht] at this
+  exact (Option.some.inj this).symm
+
+example : buildLink ⟨1, 0x55, identityCode, 2⟩ [1, 2, 3, 4, 5] = some ⟨1, 0x55, identityCode, [1, 2, 3, 4, 5]⟩ := by decide
+
+/-- A given `MhLength` (other than -1, on a non-identity hash) yields a digest of exactly that length —
+    the first `MhLength` bytes of the hash — or a refusal (Go: slice bounds panic), the latter exactly when
+    the length is negative or exceeds what the hash function yields.  No third outcome. -/
+theorem truncate_length (p : Proto) (h : Bytes) (hi : p.mhType ≠ identityCode) (hl : p.mhLength ≠ -1) :
+    (∃ d, truncate p h = some d ∧ (d.length : Int) = p.mhLength ∧ d = h.take p.mhLength.toNat) ∨
+    (truncate p h = none ∧ (p.mhLength < 0 ∨ (h.length : Int) < p.mhLength)) := by
+  cases ht : truncate p h with
+  | none => exact Or.inr ⟨rfl, ((truncate_none_iff p h).mp ht).2.2⟩
+  | some d =>
+    obtain ⟨a, b, _, _⟩ := truncate_some_cut ht hi hl
+    exact Or.inl ⟨d, rfl, b, a⟩
+
+/-- …and so for the link: its digest has exactly the length the prototype asked for. -/
+theorem truncated_digest_length (p : Proto) (h : Bytes) (l : Lnk) (hi : p.mhType ≠ identityCode)
+    (hl : p.mhLength ≠ -1) (hb : buildLink p h = some l) :
+    (l.digest.length : Int) = p.mhLength ∧ l.digest = h.take p.mhLength.toNat := by
+  obtain ⟨a, b, _, _⟩ := truncate_some_cut (buildLink_some hb).2.1 hi hl
+  exact ⟨b, a⟩
+
+/-- With `MhLength = -1` the digest is the whole hash. -/
+theorem whole_digest (p : Proto) (h : Bytes) (l : Lnk) (hl : p.mhLength = -1) (hb : buildLink p h = some l) :
+    l.digest = h := by
+  have := (buildLink_some hb).2.1
+  rw [truncate_whole p h hl] at this
+  exact (Option.some.inj this).symm
+
+example : buildLink ⟨1, 0x71, 0x12, 2⟩ [9, 8, 7, 6] = some ⟨1, 0x71, 0x12, [9, 8]⟩ := by decide
+example : buildLink ⟨1, 0x71, 0x12, 5⟩ [9, 8, 7, 6] = none ∧ buildLink ⟨1, 0x71, 0x12, -2⟩ [9, 8, 7, 6] = none := by decide
+example : buildLink ⟨1, 0x71, 0x12, -1⟩ [9, 8, 7, 6] = some ⟨1, 0x71, 0x12, [9, 8, 7, 6]⟩ := by decide
+
+/-- In every case the digest is a prefix of the hash. -/
+theorem digest_prefix (p : Proto) (h : Bytes) (l : Lnk) (hb : buildLink p h = some l) : l.digest <+: h :=
+  truncate_prefix (buildLink_some hb).2.1
+
+/-- A CIDv0 link exists only for sha2-256 with length 32 (or -1, provided the hash is 32 bytes long):
+    the result is version 0, dag-pb, with a 32-byte digest, and the prototype's codec is ignored. -/
+theorem v0_requires_sha256_32 (p : Proto) (h : Bytes) (l : Lnk) (h0 : p.version = 0)
+    (hb : buildLink p h = some l) :
+    p.mhType = sha256Code ∧ (p.mhLength = 32 ∨ p.mhLength = -1) ∧ l.digest.length = 32 ∧
+      l = ⟨0, 0x70, sha256Code, l.digest⟩ := by
+  obtain ⟨hv, _, hm⟩ := buildLink_some hb
+  obtain ⟨a, b⟩ := v0ok_v0 hv h0
+  obtain ⟨m, _, c⟩ := mkLink_some hm
+  rcases c with ⟨_, lv, lc, h32⟩ | ⟨h1, _, _⟩
+  · refine ⟨a, b, h32, ?_⟩
+    cases l
+    simp_all
+  · omega
+
+example : buildLink ⟨0, 0x71, sha256Code, 32⟩ (List.replicate 33 7) = some ⟨0, 0x70, sha256Code, List.replicate 32 7⟩ := by decide
+example : buildLink ⟨0, 0x70, 0x13, 32⟩ (List.replicate 32 7) = none ∧ buildLink ⟨0, 0x70, sha256Code, 20⟩ (List.replicate 32 7) = none
+    ∧ buildLink ⟨0, 0x70, sha256Code, -1⟩ (List.replicate 20 7) = none := by decide
+
+/-- Exactly when `BuildLink` panics (the model's `none`): the CIDv0 guard, a refused truncation, a CIDv0
+    digest that is not 32 bytes long, or a version other than 0 and 1. -/
+theorem buildLink_none_iff (p : Proto) (h : Bytes) :
+    buildLink p h = none ↔
+      v0ok p = false ∨ truncate p h = none ∨
+      (p.version = 0 ∧ ∃ d, truncate p h = some d ∧ d.length ≠ 32) ∨ (p.version ≠ 0 ∧ p.version ≠ 1) := by
+  unfold buildLink
+  by_cases hv : v0ok p = true
+  · simp only [hv, if_true]
+    cases ht : truncate p h with
+    | none => simp
+    | some d =>
+      simp only [Option.bind, mkLink]
+      by_cases v0 : p.version = 0
+      · by_cases h32 : d.length = 32 <;> simp [v0, h32]
+      · by_cases v1 : p.version = 1 <;> simp [v0, v1]
+  · simp [hv]
+
+/-! ## The link is an injective function of (prototype, digest): collisions are the only way two blocks share a link -/
+
+/-- Two hashes that give the same link under one prototype have the same truncation: the link determines
+    the digest. -/
+theorem buildLink_inj (p : Proto) (h₁ h₂ : Bytes) (l : Lnk)
+    (e₁ : buildLink p h₁ = some l) (e₂ : buildLink p h₂ = some l) : truncate p h₁ = truncate p h₂ := by
+  rw [(buildLink_some e₁).2.1, (buildLink_some e₂).2.1]
+
+/-- …and conversely a hash with the same truncation gives the same link: under a prototype, links and
+    truncated digests correspond one to one. -/
+theorem buildLink_eq_iff (p : Proto) (h₁ h₂ : Bytes) (l : Lnk) (e₁ : buildLink p h₁ = some l) :
+    buildLink p h₂ = some l ↔ truncate p h₂ = truncate p h₁ :=
+  ⟨fun e₂ => buildLink_inj p h₂ h₁ l e₂ e₁, fun e => by rw [buildLink_congr e, e₁]⟩
+
+example : buildLink ⟨1, 0x71, 0x12, 2⟩ [9, 8, 7] = some ⟨1, 0x71, 0x12, [9, 8]⟩ ∧
+    buildLink ⟨1, 0x71, 0x12, 2⟩ [9, 8, 1, 1] = some ⟨1, 0x71, 0x12, [9, 8]⟩ ∧ ([9, 8, 7] : Bytes) ≠ [9, 8, 1, 1] := by decide
+
+/-- Two stores (any two storages, any two values) under one prototype that return the same link encoded
+    to byte strings whose truncated hashes are equal.  So distinct encodings share a link only through a
+    collision of the (truncated) hash — the collision assumption, isolated. -/
+theorem link_inj_modulo_hash (s s' : Store) (p : Proto) (v₁ v₂ : DM) (l : Lnk)
+    (h₁ : (hstep H codecs s (.store p v₁)).2 = .link l) (h₂ : (hstep H codecs s' (.store p v₂)).2 = .link l) :
+    ∃ c b₁ b₂, codecs p.codec = some c ∧ c.encode v₁ = some b₁ ∧ c.encode v₂ = some b₂ ∧
+      truncate p (H p.mhType b₁) = truncate p (H p.mhType b₂) := by
+  obtain ⟨c, b₁, hc, he₁, hb₁, _⟩ := hstep_store_out H codecs h₁
+  obtain ⟨c', b₂, hc', he₂, hb₂, _⟩ := hstep_store_out H codecs h₂
+  rw [hc] at hc'
+  cases hc'
+  exact ⟨c, b₁, b₂, hc, he₁, he₂, buildLink_inj p _ _ l hb₁ hb₂⟩
+
+/-- Hence, where the truncated hash has no collision, equal links mean equal encodings… -/
+theorem link_inj_of_no_collision (s s' : Store) (p : Proto) (v₁ v₂ : DM) (l : Lnk) (c : Codec)
+    (hc : codecs p.codec = some c)
+    (hcf : ∀ b₁ b₂ d, truncate p (H p.mhType b₁) = some d → truncate p (H p.mhType b₂) = some d → b₁ = b₂)
+    (h₁ : (hstep H codecs s (.store p v₁)).2 = .link l) (h₂ : (hstep H codecs s' (.store p v₂)).2 = .link l) :
+    c.encode v₁ = c.encode v₂ := by
+  obtain ⟨c', b₁, hc', he₁, hb₁, _⟩ := hstep_store_out H codecs h₁
+  obtain ⟨c'', b₂, hc'', he₂, hb₂, _⟩ := hstep_store_out H codecs h₂
+  rw [hc] at hc' hc''
+  cases hc'; cases hc''
+  rw [he₁, he₂, hcf b₁ b₂ l.digest (buildLink_some hb₁).2.1 (buildLink_some hb₂).2.1]
+
+/-- …and for DAG-CBOR equal links mean equal values up to map entry order (`C02.encode_inj`). -/
+theorem link_inj_dagcbor (s s' : Store) (p : Proto) (v₁ v₂ : DM) (l : Lnk) (cfg : Cbor.DecCfg)
+    (hc : codecs p.codec = some dagcborCodec) (hB : cfg.budget < 2 ^ 63)
+    (hcf : ∀ b₁ b₂ d, truncate p (H p.mhType b₁) = some d → truncate p (H p.mhType b₂) = some d → b₁ = b₂)
+    (hv₁ : v₁.NoDup ∧ Spec.finiteFloats v₁ ∧ Spec.WithinLimits cfg v₁)
+    (hv₂ : v₂.NoDup ∧ Spec.finiteFloats v₂ ∧ Spec.WithinLimits cfg v₂)
+    (h₁ : (hstep H codecs s (.store p v₁)).2 = .link l) (h₂ : (hstep H codecs s' (.store p v₂)).2 = .link l) :
+    Spec.canon v₁ = Spec.canon v₂ := by
+  have e := link_inj_of_no_collision H codecs s s' p v₁ v₂ l dagcborCodec hc hcf h₁ h₂
+  obtain ⟨c', b₁, hc', he₁, _, _⟩ := hstep_store_out H codecs h₁
+  rw [hc] at hc'; cases hc'
+  simp only [dagcborCodec, Cbor.encode] at e he₁
+  by_cases x₁ : Cbor.encodable Cbor.dagcborEnc v₁ = true
+  · by_cases x₂ : Cbor.encodable Cbor.dagcborEnc v₂ = true
+    · simp only [x₁, x₂, if_true, Option.some.injEq] at e
+      exact Ipld.Props.C02.encode_inj cfg v₁ v₂ hB ⟨hv₁.1, x₁, hv₁.2⟩ ⟨hv₂.1, x₂, hv₂.2⟩ e
+    · simp [x₁, x₂] at e
+  · simp [x₁] at he₁
+
+/-- With the identity multihash (the "hash" of a block is the block) a link determines the block outright:
+    no collision assumption is left. -/
+theorem identity_link_inj (hid : ∀ b, H identityCode b = b) (p : Proto) (b₁ b₂ : Bytes) (l : Lnk)
+    (hi : p.mhType = identityCode)
+    (e₁ : buildLink p (H p.mhType b₁) = some l) (e₂ : buildLink p (H p.mhType b₂) = some l) : b₁ = b₂ := by
+  have := buildLink_inj p _ _ l e₁ e₂
+  rw [truncate_identity p _ hi, truncate_identity p _ hi, hi, hid, hid] at this
+  exact Option.some.inj this
+
+/-- `link_inj_dagcbor` and `identity_link_inj` apply: identity multihash (no collisions at all), the two
+    entry orders of `C02.ex1` stored under one prototype get one link, and the theorem returns that their
+    canonical forms agree. -/
+example : Spec.canon C02.ex1 = Spec.canon C02.ex1' := by
+  let Hid : Nat → Bytes → Bytes := fun _ b => b
+  let cs : Nat → Option Codec := fun _ => some dagcborCodec
+  let p : Proto := ⟨1, 0x71, identityCode, -1⟩
+  let b : Bytes := [0xa2, 0x61, 0x61, 0x81, 0xf5, 0x62, 0x62, 0x62, 0x01]
+  let l : Lnk := ⟨1, 0x71, identityCode, b⟩
+  have he : dagcborCodec.encode C02.ex1 = some b := by
+    show Cbor.encode Cbor.dagcborEnc C02.ex1 = _
+    rw [C02.encode_eq_canon C02.ex1 C02.ex1_nodup (by decide)]; decide
+  have he' : dagcborCodec.encode C02.ex1' = some b := by
+    show Cbor.encode Cbor.dagcborEnc C02.ex1' = _
+    rw [C02.encode_eq_canon C02.ex1' C02.ex1'_nodup (by decide)]; decide
+  have h₁ : (hstep Hid cs [] (.store p C02.ex1)).2 = .link l := by
+    rw [hstep_store_of Hid cs (c := dagcborCodec) (l := l) rfl he (by decide)]
+  have h₂ : (hstep Hid cs [] (.store p C02.ex1')).2 = .link l := by
+    rw [hstep_store_of Hid cs (c := dagcborCodec) (l := l) rfl he' (by decide)]
+  have lim : ∀ v, v = C02.ex1 ∨ v = C02.ex1' → v.NoDup ∧ Spec.finiteFloats v ∧ Spec.WithinLimits Cbor.dagcborDec v := by
+    rintro v (rfl | rfl)
+    · exact ⟨C02.ex1_nodup, by simp [C02.ex1, Spec.finiteFloats, Spec.finiteFloatsKVs, Spec.finiteFloatsList],
+        by unfold Spec.WithinLimits; decide⟩
+    · exact ⟨C02.ex1'_nodup, by simp [C02.ex1', Spec.finiteFloats, Spec.finiteFloatsKVs, Spec.finiteFloatsList],
+        by unfold Spec.WithinLimits; decide⟩
+  exact link_inj_dagcbor Hid cs [] [] p C02.ex1 C02.ex1' l Cbor.dagcborDec rfl (by decide)
+    (fun b₁ b₂ d e₁ e₂ => by
+      rw [truncate_identity _ _ rfl] at e₁ e₂
+      exact (Option.some.inj e₁).trans (Option.some.inj e₂).symm)
+    (lim _ (Or.inl rfl)) (lim _ (Or.inr rfl)) h₁ h₂
+
+example : (∀ b, (fun (_ : Nat) (b : Bytes) => b) identityCode b = b) ∧
+    buildLink ⟨1, 0x55, identityCode, 3⟩ [1, 2, 3, 4] = some ⟨1, 0x55, identityCode, [1, 2, 3, 4]⟩ ∧
+    hashesTo (fun _ b => b) ⟨1, 0x55, identityCode, [1, 2, 3, 4]⟩ [1, 2, 3, 4] = true ∧
+    hashesTo (fun _ b => b) ⟨1, 0x55, identityCode, [1, 2, 3, 4]⟩ [1, 2, 3] = false :=
+  ⟨fun _ => rfl, by decide, by decide, by decide⟩
+
+/-! ## Store twice -/
+
+/-- Storing the same (prototype, value) a second time returns the same result (the same link, or again
+    an error), leaves every lookup as it was, and hence is unobservable by any later history. -/
+theorem store_idempotent (s : Store) (p : Proto) (v : DM) :
+    let r₁ := hstep H codecs s (.store p v)
+    let r₂ := hstep H codecs r₁.1 (.store p v)
+    r₂.2 = r₁.2 ∧ (∀ l, r₂.1.get l = r₁.1.get l) ∧
+      ∀ ops, (hrun H codecs r₂.1 ops).2 = (hrun H codecs r₁.1 ops).2 := by
+  intro r₁ r₂
+  have key : r₂.2 = r₁.2 ∧ ∀ l, r₂.1.get l = r₁.1.get l := by
+    by_cases hx : ∃ l, (hstep H codecs s (.store p v)).2 = .link l
+    · obtain ⟨l, hl⟩ := hx
+      obtain ⟨c, b, hc, he, hb, e⟩ := hstep_store_out H codecs hl
+      have e₂ : r₂ = ((s.put l b).put l b, .link l) := by
+        show hstep H codecs (hstep H codecs s (.store p v)).1 (.store p v) = _
+        rw [e]; exact hstep_store_of H codecs hc he hb
+      have e₁ : r₁ = (s.put l b, .link l) := e
+      rw [e₂, e₁]
+      exact ⟨rfl, fun l' => get_put_same _ l b (get_put_self s l b) l'⟩
+    · have e₁ : r₁ = (s, .error) := hstep_store_nolink H codecs (fun l hl => hx ⟨l, hl⟩)
+      have e₂ : r₂ = (s, .error) := by
+        show hstep H codecs (hstep H codecs s (.store p v)).1 (.store p v) = _
+        rw [show hstep H codecs s (.store p v) = (s, .error) from e₁]; exact e₁
+      rw [e₂, e₁]
+      exact ⟨rfl, fun _ => rfl⟩
+  exact ⟨key.1, key.2, fun ops => (hrun_congr H codecs _ _ ops key.2).1⟩
+
+example :
+    let r₁ := hstep toyHash toyCodecs [] (.store toyP (.bytes [7, 8]))
+    let r₂ := hstep toyHash toyCodecs r₁.1 (.store toyP (.bytes [7, 8]))
+    r₁.2 = .link ⟨1, 0x55, 0x12, [2, 7]⟩ ∧ r₂.2 = r₁.2 ∧
+      (hstep toyHash toyCodecs r₂.1 (.load ⟨1, 0x55, 0x12, [2, 7]⟩)).2 = .node (.bytes [7, 8]) := by decide
+
+/-! ## History independence of loads -/
+
+/-- Frame property of histories: whatever happens, the block a link is bound to afterwards is the one
+    it was bound to before, or one that some `store` of the history wrote under that very link. -/
+theorem get_after_history_cases (s : Store) (ops : List HOp) (l : Lnk) :
+    (hrun H codecs s ops).1.get l = s.get l ∨
+    ∃ op ∈ ops, ∃ b, Writes H codecs op l b ∧ (hrun H codecs s ops).1.get l = some b :=
+  hrun_get_cases H codecs s ops l
+
+/-- A block written under `l` hashes to `l`. -/
+theorem writes_hashesTo (op : HOp) (l : Lnk) (b : Bytes) (h : Writes H codecs op l b) : hashesTo H l b = true := by
+  obtain ⟨p, _, _, _, _, _, hb⟩ := h
+  exact buildLink_hashesTo H p b l hb
+
+/-- From a storage that satisfies the invariant, after any history, every link that is bound loads:
+    `LoadRaw` returns the bound block (never a hash mismatch), and `Load` what the decoder makes of it. -/
+theorem bound_links_load_after_history (s : Store) (ops : List HOp) (l : Lnk) (b : Bytes) (h : StoreInv H s)
+    (hg : (hrun H codecs s ops).1.get l = some b) :
+    (hstep H codecs (hrun H codecs s ops).1 (.loadRaw l)).2 = .raw b ∧
+    ∀ c, codecs l.codec = some c →
+      (hstep H codecs (hrun H codecs s ops).1 (.load l)).2 =
+        (match c.decode b with | some v' => .node v' | none => .error) := by
+  have hh := history_inv H codecs s ops h l b hg
+  exact ⟨by rw [hstep_loadRaw_of H codecs hg hh], fun c hc => by rw [hstep_load_of H codecs hc hg hh]; rfl⟩
+
+/-- the invariant is needed for that: a block filed under a link it does not hash to is refused -/
+example : (hstep toyHash toyCodecs [(⟨1, 0x55, 0x12, [2, 7]⟩, [8, 8])] (.loadRaw ⟨1, 0x55, 0x12, [2, 7]⟩)).2 = .error ∧
+    (hstep toyHash toyCodecs [(⟨1, 0x55, 0x12, [2, 7]⟩, [7, 8])] (.loadRaw ⟨1, 0x55, 0x12, [2, 7]⟩)).2 = .raw [7, 8] := by decide
+
+/-- Unconditionally (no assumption on the hash, none on the storage before): once `store p v` has
+    returned `l`, then after any further history `LoadRaw l` succeeds and returns a block that hashes to
+    `l` — the stored one, or one a later `store` wrote under the same link (which then collides). -/
+theorem loadRaw_after_history_hashes (s s₁ : Store) (p : Proto) (v : DM) (l : Lnk) (ops : List HOp)
+    (hs : hstep H codecs s (.store p v) = (s₁, .link l)) :
+    ∃ c b b', codecs p.codec = some c ∧ c.encode v = some b ∧ hashesTo H l b' = true ∧
+      (hstep H codecs (hrun H codecs s₁ ops).1 (.loadRaw l)).2 = .raw b' ∧
+      (b' = b ∨ ∃ op ∈ ops, Writes H codecs op l b') := by
+  obtain ⟨c, b, hc, he, hb, e⟩ := hstep_store_out H codecs (show (hstep H codecs s (.store p v)).2 = .link l by rw [hs])
+  rw [hs] at e
+  have e₁ : s₁ = s.put l b := (Prod.mk.inj e).1
+  have hg : s₁.get l = some b := by rw [e₁]; exact get_put_self s l b
+  rcases hrun_get_cases H codecs s₁ ops l with g | ⟨op, hm, b', hw, g⟩
+  · rw [hg] at g
+    have hh := buildLink_hashesTo H p b l hb
+    exact ⟨c, b, b, hc, he, hh, by rw [hstep_loadRaw_of H codecs g hh], Or.inl rfl⟩
+  · have hh := writes_hashesTo H codecs op l b' hw
+    exact ⟨c, b, b', hc, he, hh, by rw [hstep_loadRaw_of H codecs g hh], Or.inr ⟨op, hm, hw⟩⟩
+
+/-- History independence.  Once `store p v` has returned `l`, then after ANY further history `ops` on
+    that storage — stores of other values, recomputations, loads, in any number and order — `LoadRaw l`
+    returns exactly the bytes that were stored and `Load l` the node the decoder makes of them, provided no
+    `store` of `ops` wrote a different block under the same link (`hnc`; such a store would be a hash
+    collision, see `load_after_history_nocoll`).  Nothing is assumed of the storage before. -/
+theorem load_after_history (s s₁ : Store) (p : Proto) (v : DM) (l : Lnk) (c : Codec) (ops : List HOp)
+    (hs : hstep H codecs s (.store p v) = (s₁, .link l)) (hc : codecs l.codec = some c)
+    (hp : codecs p.codec = some c)
+    (hnc : ∀ op ∈ ops, ∀ b', Writes H codecs op l b' → c.encode v = some b') :
+    ∃ b, c.encode v = some b ∧
+      (hstep H codecs (hrun H codecs s₁ ops).1 (.loadRaw l)).2 = .raw b ∧
+      (hstep H codecs (hrun H codecs s₁ ops).1 (.load l)).2 =
+        (match c.decode b with | some v' => .node v' | none => .error) := by
+  obtain ⟨c', b, hc', he, hb, e⟩ := hstep_store_out H codecs (show (hstep H codecs s (.store p v)).2 = .link l by rw [hs])
+  rw [hp] at hc'; cases hc'
+  rw [hs] at e
+  have e₁ : s₁ = s.put l b := (Prod.mk.inj e).1
+  have hh := buildLink_hashesTo H p b l hb
+  have hg : (hrun H codecs s₁ ops).1.get l = some b := by
+    rcases hrun_get_cases H codecs s₁ ops l with g | ⟨op, hm, b', hw, g⟩
+    · rw [g, e₁]; exact get_put_self s l b
+    · have := hnc op hm b' hw
+      rw [he] at this
+      rw [g, Option.some.inj this]
+  exact ⟨b, he, by rw [hstep_loadRaw_of H codecs hg hh], by rw [hstep_load_of H codecs hc hg hh]; rfl⟩
+
+/-- The same under the plain collision assumption, with no condition on the history at all: if the
+    stored block is the only one that hashes to `l`, nothing later can disturb what `l` loads. -/
+theorem load_after_history_nocoll (s s₁ : Store) (p : Proto) (v : DM) (l : Lnk) (c : Codec) (ops : List HOp)
+    (hs : hstep H codecs s (.store p v) = (s₁, .link l)) (hc : codecs l.codec = some c)
+    (hp : codecs p.codec = some c)
+    (hcf : ∀ b', hashesTo H l b' = true → c.encode v = some b') :
+    ∃ b, c.encode v = some b ∧
+      (hstep H codecs (hrun H codecs s₁ ops).1 (.loadRaw l)).2 = .raw b ∧
+      (hstep H codecs (hrun H codecs s₁ ops).1 (.load l)).2 =
+        (match c.decode b with | some v' => .node v' | none => .error) :=
+  load_after_history H codecs s s₁ p v l c ops hs hc hp
+    (fun op _ b' hw => hcf b' (writes_hashesTo H codecs op l b' hw))
+
+/-- In one history: if operation number `pre.length` of a history is `store p v` and returned `l`, the
+    loads of `l` after the whole history return what was stored (same proviso as `load_after_history`,
+    on the operations after the store only; the operations before it and the initial storage are free). -/
+theorem load_any_time_later (s : Store) (pre mid : List HOp) (p : Proto) (v : DM) (l : Lnk) (c : Codec)
+    (hout : (hrun H codecs s (pre ++ .store p v :: mid)).2[pre.length]? = some (.link l))
+    (hc : codecs l.codec = some c) (hp : codecs p.codec = some c)
+    (hnc : ∀ op ∈ mid, ∀ b', Writes H codecs op l b' → c.encode v = some b') :
+    ∃ b, c.encode v = some b ∧
+      (hstep H codecs (hrun H codecs s (pre ++ .store p v :: mid)).1 (.loadRaw l)).2 = .raw b ∧
+      (hstep H codecs (hrun H codecs s (pre ++ .store p v :: mid)).1 (.load l)).2 =
+        (match c.decode b with | some v' => .node v' | none => .error) := by
+  rw [hrun_append_snd, List.getElem?_append_right (by rw [hrun_length]; exact Nat.le_refl _), hrun_length,
+    Nat.sub_self, hrun_cons_snd, List.getElem?_cons_zero, Option.some.injEq] at hout
+  rw [hrun_append_fst, hrun_cons_fst]
+  exact load_after_history H codecs (hrun H codecs s pre).1 _ p v l c mid (Prod.ext rfl hout) hc hp hnc
+
+/-- The proviso is needed: with a hash under which two blocks collide, a later `store` of the other
+    block returns the same link and takes its place (the storage keeps one block per link), so `Load`
+    returns the other value.  (`constHash` maps everything to one digest.) -/
+example :
+    let l : Lnk := ⟨1, 0x55, 0x12, [0]⟩
+    let r₁ := hstep constHash toyCodecs [] (.store toyP (.bytes [1]))
+    let r₂ := hrun constHash toyCodecs r₁.1 [.store toyP (.bytes [2])]
+    r₁.2 = .link l ∧ r₂.2 = [.link l] ∧
+      (hstep constHash toyCodecs r₁.1 (.load l)).2 = .node (.bytes [1]) ∧
+      (hstep constHash toyCodecs r₂.1 (.load l)).2 = .node (.bytes [2]) ∧
+      (hstep constHash toyCodecs r₂.1 (.loadRaw l)).2 = .raw [2] := by decide
+
+/-- `load_after_history` on concrete data: a store, then a store of another value, a recomputation, a
+    load of something absent and a second store of the first value; the first link still loads its value. -/
+example :
+    let l : Lnk := ⟨1, 0x55, 0x12, [2, 7]⟩
+    let ops : List HOp := [.store toyP (.bytes [9]), .compute toyP (.bytes [7, 8]), .load ⟨1, 0x55, 0x12, [3, 3]⟩,
+      .store toyP (.bytes [7, 8])]
+    let r₁ := hstep toyHash toyCodecs [] (.store toyP (.bytes [7, 8]))
+    let r₂ := hrun toyHash toyCodecs r₁.1 ops
+    r₁.2 = .link l ∧ r₂.2 = [.link ⟨1, 0x55, 0x12, [1, 9]⟩, .link l, .error, .link l] ∧
+      (hstep toyHash toyCodecs r₂.1 (.load l)).2 = .node (.bytes [7, 8]) ∧
+      (hstep toyHash toyCodecs r₂.1 (.loadRaw l)).2 = .raw [7, 8] := by decide
+
+/-- Both codec hypotheses (`hc` for the link, `hp` for the prototype) are needed, and they can differ:
+    a CIDv0 link says dag-pb whatever codec the prototype named, so a block written with the prototype's
+    codec is read back with another one (here: none registered for 0x70). -/
+example :
+    let H32 : Nat → Bytes → Bytes := fun _ b => List.replicate 31 0 ++ [UInt8.ofNat b.length]
+    let l : Lnk := ⟨0, 0x70, 0x12, List.replicate 31 0 ++ [2]⟩
+    let r₁ := hstep H32 toyCodecs [] (.store ⟨0, 0x55, 0x12, 32⟩ (.bytes [7, 8]))
+    r₁.2 = .link l ∧ (hstep H32 toyCodecs r₁.1 (.load l)).2 = .error ∧
+      (hstep H32 toyCodecs r₁.1 (.loadRaw l)).2 = .raw [7, 8] := by decide
+
+/-- Storing the same (prototype, value) again at any later time returns the same link and changes no
+    lookup (same proviso: no colliding store in between). -/
+theorem store_idempotent_later (s s₁ : Store) (p : Proto) (v : DM) (l : Lnk) (c : Codec) (ops : List HOp)
+    (hs : hstep H codecs s (.store p v) = (s₁, .link l)) (hp : codecs p.codec = some c)
+    (hnc : ∀ op ∈ ops, ∀ b', Writes H codecs op l b' → c.encode v = some b') :
+    let s₂ := (hrun H codecs s₁ ops).1
+    (hstep H codecs s₂ (.store p v)).2 = .link l ∧
+      ∀ l', (hstep H codecs s₂ (.store p v)).1.get l' = s₂.get l' := by
+  intro s₂
+  obtain ⟨c', b, hc', he, hb, e⟩ := hstep_store_out H codecs (show (hstep H codecs s (.store p v)).2 = .link l by rw [hs])
+  rw [hp] at hc'; cases hc'
+  rw [hs] at e
+  have e₁ : s₁ = s.put l b := (Prod.mk.inj e).1
+  have hg : s₂.get l = some b := by
+    rcases hrun_get_cases H codecs s₁ ops l with g | ⟨op, hm, b', hw, g⟩
+    · show (hrun H codecs s₁ ops).1.get l = some b
+      rw [g, e₁]; exact get_put_self s l b
+    · have := hnc op hm b' hw
+      rw [he] at this
+      show (hrun H codecs s₁ ops).1.get l = some b
+      rw [g, Option.some.inj this]
+  rw [hstep_store_of H codecs (s := s₂) hp he hb]
+  exact ⟨rfl, fun l' => get_put_same s₂ l b hg l'⟩
+
+/-- `load_any_time_later` and `store_idempotent_later` on concrete data: a history of six operations on an
+    initially non-empty storage (whose one block does not even hash to its link — nothing is assumed of it);
+    operation 1 stores `[7, 8]`; after everything the link loads that value, and storing it again returns
+    the same link and changes no lookup. -/
+example :
+    let l : Lnk := ⟨1, 0x55, 0x12, [2, 7]⟩
+    let s₀ : Store := [(⟨1, 0x55, 0x12, [5, 5]⟩, [1])]
+    let h : List HOp := [.load l, .store toyP (.bytes [7, 8]), .store toyP (.bytes [9]), .loadRaw l,
+      .compute toyP (.bytes [7, 8]), .store toyP (.bytes [7, 8])]
+    let r := hrun toyHash toyCodecs s₀ h
+    r.2 = [.error, .link l, .link ⟨1, 0x55, 0x12, [1, 9]⟩, .raw [7, 8], .link l, .link l] ∧
+      (hstep toyHash toyCodecs r.1 (.load l)).2 = .node (.bytes [7, 8]) ∧
+      (hstep toyHash toyCodecs r.1 (.loadRaw l)).2 = .raw [7, 8] ∧
+      (hstep toyHash toyCodecs r.1 (.store toyP (.bytes [7, 8]))).2 = .link l ∧
+      (hstep toyHash toyCodecs r.1 (.load ⟨1, 0x55, 0x12, [5, 5]⟩)).2 = .error := by decide
+
+/-- DAG-CBOR, any time later: what `Load` returns is the stored value in canonical entry order. -/
+theorem load_after_history_dagcbor (s s₁ : Store) (p : Proto) (v : DM) (l : Lnk) (ops : List HOp)
+    (hs : hstep H codecs s (.store p v) = (s₁, .link l)) (hc : codecs l.codec = some dagcborCodec)
+    (hp : codecs p.codec = some dagcborCodec)
+    (hnc : ∀ op ∈ ops, ∀ b', Writes H codecs op l b' → dagcborCodec.encode v = some b')
+    (rt : Cbor.decode Cbor.dagcborDec (Cbor.enc Cbor.dagcborEnc v) = .ok (Spec.canon v)) :
+    (hstep H codecs (hrun H codecs s₁ ops).1 (.load l)).2 = .node (Spec.canon v) ∧
+    (hstep H codecs (hrun H codecs s₁ ops).1 (.loadRaw l)).2 = .raw (Cbor.enc Cbor.dagcborEnc v) := by
+  obtain ⟨b, he, hr, hl⟩ := load_after_history H codecs s s₁ p v l dagcborCodec ops hs hc hp hnc
+  rw [hl, hr]
+  simp only [dagcborCodec, Cbor.encode] at he
+  split at he
+  · simp only [Option.some.injEq] at he
+    subst he
+    exact ⟨by simp [dagcborCodec, rt, Except.toOption], rfl⟩
+  · simp at he
+
+/-- `load_after_history_dagcbor` on concrete data: the value of `C02.ex1` (a map in non-canonical entry
+    order) is stored; later the same map in another entry order is stored (same link, same bytes — the
+    proviso holds by `C02.encode_perm`), a link is recomputed and something absent is loaded; the first
+    link then loads the canonically ordered value.  The round-trip hypothesis is `C02.decode_encode`. -/
+example :
+    let cs : Nat → Option Codec := fun _ => some dagcborCodec
+    let p : Proto := ⟨1, 0x71, 0x12, -1⟩
+    let b : Bytes := [0xa2, 0x61, 0x61, 0x81, 0xf5, 0x62, 0x62, 0x62, 0x01]
+    let l : Lnk := ⟨1, 0x71, 0x12, [9, 0xa2]⟩
+    let ops : List HOp := [.store p C02.ex1', .compute p (.int 1), .load ⟨1, 0x71, 0x12, [3, 3]⟩]
+    (hstep toyHash cs (hrun toyHash cs (Store.put [] l b) ops).1 (.load l)).2 = .node C02.ex1' ∧ C02.ex1 ≠ C02.ex1' := by
+  intro cs p b l ops
+  have he : dagcborCodec.encode C02.ex1 = some b := by
+    show Cbor.encode Cbor.dagcborEnc C02.ex1 = _
+    rw [C02.encode_eq_canon C02.ex1 C02.ex1_nodup (by decide)]; decide
+  have hs : hstep toyHash cs [] (.store p C02.ex1) = (Store.put [] l b, .link l) :=
+    hstep_store_of toyHash cs (c := dagcborCodec) rfl he (by decide)
+  have hnc : ∀ op ∈ ops, ∀ b', Writes toyHash cs op l b' → dagcborCodec.encode C02.ex1 = some b' := by
+    intro op hm b' ⟨p', v', c', hop, hc', he', _⟩
+    simp only [ops, List.mem_cons, List.not_mem_nil, or_false] at hm
+    rcases hm with rfl | rfl | rfl
+    · cases hop
+      cases hc'
+      rw [← he']
+      show Cbor.encode Cbor.dagcborEnc C02.ex1 = Cbor.encode Cbor.dagcborEnc C02.ex1'
+      simp only [Cbor.encode]
+      rw [C02.encode_perm C02.ex1 C02.ex1' C02.ex1_nodup C02.ex1'_nodup (by decide),
+        show Cbor.encodable Cbor.dagcborEnc C02.ex1 = Cbor.encodable Cbor.dagcborEnc C02.ex1' by decide]
+    · cases hop
+    · cases hop
+  have rt := C02.decode_encode Cbor.dagcborDec C02.ex1 (by decide) C02.ex1_nodup (by decide)
+    (by simp [C02.ex1, Spec.finiteFloats, Spec.finiteFloatsKVs, Spec.finiteFloatsList])
+    (by unfold Spec.WithinLimits; decide)
+  have := (load_after_history_dagcbor toyHash cs [] _ p C02.ex1 l ops hs rfl rfl hnc rt).1
+  rw [show Spec.canon C02.ex1 = C02.ex1' by decide] at this
+  exact ⟨this, by decide⟩
+
+/-! ## Identity links: no collision assumption left -/
+
+/-- With the identity multihash a link carries its block: the only bytes that hash to it are its digest. -/
+theorem identity_hashesTo (hid : ∀ b, H identityCode b = b) (l : Lnk) (hl : l.mhType = identityCode) (b : Bytes)
+    (h : hashesTo H l b = true) : b = l.digest := by
+  unfold hashesTo at h
+  simp only [beq_iff_eq] at h
+  have := (identity_never_truncated l.proto (H l.mhType b) l hl h).2
+  rw [hl, hid] at this
+  exact this.symm
+
+/-- So for identity links history independence holds outright, for every history. -/
+theorem load_after_history_identity (hid : ∀ b, H identityCode b = b) (s s₁ : Store) (p : Proto) (v : DM)
+    (l : Lnk) (c : Codec) (ops : List HOp) (hi : p.mhType = identityCode)
+    (hs : hstep H codecs s (.store p v) = (s₁, .link l)) (hc : codecs l.codec = some c)
+    (hp : codecs p.codec = some c) :
+    ∃ b, c.encode v = some b ∧ l.digest = b ∧
+      (hstep H codecs (hrun H codecs s₁ ops).1 (.loadRaw l)).2 = .raw b ∧
+      (hstep H codecs (hrun H codecs s₁ ops).1 (.load l)).2 =
+        (match c.decode b with | some v' => .node v' | none => .error) := by
+  obtain ⟨c', b, hc', he, hb, _⟩ := hstep_store_out H codecs (show (hstep H codecs s (.store p v)).2 = .link l by rw [hs])
+  rw [hp] at hc'; cases hc'
+  have hm : l.mhType = identityCode := by rw [(buildLink_fields p _ l hb).1, hi]
+  have hd : b = l.digest := identity_hashesTo H hid l hm b (buildLink_hashesTo H p b l hb)
+  obtain ⟨b₂, he₂, h1, h2⟩ := load_after_history_nocoll H codecs s s₁ p v l c ops hs hc hp
+    (fun b' hb' => by rw [he, identity_hashesTo H hid l hm b' hb', hd])
+  rw [he] at he₂; cases he₂
+  exact ⟨b, he, hd.symm, h1, h2⟩
+
+example :
+    let Hid : Nat → Bytes → Bytes := fun _ b => b
+    let p : Proto := ⟨1, 0x55, identityCode, 1⟩
+    let l : Lnk := ⟨1, 0x55, identityCode, [7, 8]⟩
+    let r₁ := hstep Hid toyCodecs [] (.store p (.bytes [7, 8]))
+    let r₂ := hrun Hid toyCodecs r₁.1 [.store p (.bytes [7, 8, 9]), .store ⟨1, 0x55, 0x12, 2⟩ (.bytes [7, 8, 9])]
+    r₁.2 = .link l ∧ (hstep Hid toyCodecs r₂.1 (.load l)).2 = .node (.bytes [7, 8]) := by decide
+
+/-- `link_inj_modulo_hash` on concrete data: under the toy hash (length, first byte) two different blocks
+    collide, and get the same link. -/
+example :
+    let l : Lnk := ⟨1, 0x55, 0x12, [2, 7]⟩
+    (hstep toyHash toyCodecs [] (.store toyP (.bytes [7, 8]))).2 = .link l ∧
+    (hstep toyHash toyCodecs [] (.store toyP (.bytes [7, 9]))).2 = .link l ∧
+    truncate toyP (toyHash 0x12 [7, 8]) = truncate toyP (toyHash 0x12 [7, 9]) := by decide
+
+/-- `link_inj_of_no_collision` applies (identity multihash: the hypothesis `hcf` is true), and says what it
+    should on concrete data. -/
+example (v₁ v₂ : DM) (l : Lnk)
+    (h₁ : (hstep (fun _ b => b) toyCodecs [] (.store ⟨1, 0x55, identityCode, -1⟩ v₁)).2 = .link l)
+    (h₂ : (hstep (fun _ b => b) toyCodecs [] (.store ⟨1, 0x55, identityCode, -1⟩ v₂)).2 = .link l) :
+    rawCodec.encode v₁ = rawCodec.encode v₂ :=
+  link_inj_of_no_collision (fun _ b => b) toyCodecs [] [] ⟨1, 0x55, identityCode, -1⟩ v₁ v₂ l rawCodec rfl
+    (fun b₁ b₂ d e₁ e₂ => by
+      rw [truncate_identity _ _ rfl] at e₁ e₂
+      exact (Option.some.inj e₁).trans (Option.some.inj e₂).symm) h₁ h₂
+example : (hstep (fun _ b => b) toyCodecs [] (.store ⟨1, 0x55, identityCode, -1⟩ (.bytes [1, 2]))).2 =
+    .link ⟨1, 0x55, identityCode, [1, 2]⟩ := by decide
+
+/-! ## DAG-JSON -/
+
+/-- For DAG-JSON too the link does not depend on map insertion order, at any depth (composition of
+    `link_fun` with `C04.marshalTok_perm`; no lexer enters — only the encoder side is involved; `fmtF` is
+    the float formatter parameter of the JSON model).  Values outside the JSON domain give an error on both
+    sides. -/
+theorem link_perm_dagjson (fmtF : UInt64 → Option Bytes) (lex : Bytes → Option (List Json.JTok))
+    (s s' : Store) (p : Proto) (v v' : DM)
+    (hc : codecs p.codec = some (dagjsonCodec fmtF lex)) (nd : v.NoDup) (nd' : v'.NoDup)
+    (e : Spec.canonLex v = Spec.canonLex v') :
+    (hstep H codecs s (.compute p v)).2 = (hstep H codecs s' (.compute p v')).2 := by
+  apply link_fun H codecs s s' p v v' (dagjsonCodec fmtF lex) hc
+  simp only [dagjsonCodec, Json.encodeJson]
+  rw [Ipld.Props.C04.marshalTok_perm v v' nd nd' e]
+
+/-- A DAG-JSON store that returned a link was given a value of the JSON domain (int64 integers, finite
+    floats, valid CIDs): outside it the marshaller refuses.  So `JsonDomain` need not be assumed below. -/
+theorem store_dagjson_domain (fmtF : UInt64 → Option Bytes) (lex : Bytes → Option (List Json.JTok))
+    (s : Store) (p : Proto) (v : DM) (l : Lnk)
+    (hs : (hstep H codecs s (.store p v)).2 = .link l) (hp : codecs p.codec = some (dagjsonCodec fmtF lex)) :
+    Spec.JsonDomain v := by
+  obtain ⟨c, b, hc, he, _, _⟩ := hstep_store_out H codecs hs
+  rw [hp] at hc; cases hc
+  apply Classical.byContradiction
+  intro hd
+  simp [dagjsonCodec, Json.encodeJson, Json.marshalTok_none v hd] at he
+
+/-- DAG-JSON round trip through a link system: what `Load` returns is the stored value with every map
+    in bytewise key order.  Value hypotheses are those of the C04 round trip (`C04.tok_roundtrip_win`):
+    `Expressible` (no map of one of the two reserved shapes), no repeated keys, links that survive the CID
+    text codec, nesting within the decoder's 1024 (`JsonDomain v` follows from the store having succeeded).
+    `hlex` is the one assumption about the part that is not modelled, the JSON tokenizer: on the text the
+    encoder wrote for this value it yields the tokens the encoder was given. -/
+theorem load_store_dagjson (fmtF : UInt64 → Option Bytes) (lex : Bytes → Option (List Json.JTok))
+    (s : Store) {s' : Store} (p : Proto) (v : DM) (l : Lnk)
+    (hs : hstep H codecs s (.store p v) = (s', .link l))
+    (hc : codecs l.codec = some (dagjsonCodec fmtF lex)) (hp : codecs p.codec = some (dagjsonCodec fmtF lex))
+    (hx : Spec.Expressible v) (nd : v.NoDup) (hcid : Spec.CidTextOK v) (hdep : Spec.jsonDepth v ≤ 1024)
+    (hlex : ∀ ts b, Json.marshalTok Json.dagjsonEnc v = some ts → Json.emitToks Json.compact fmtF ts = some b →
+      lex b = some ts) :
+    (hstep H codecs s' (.load l)).2 = .node (Spec.canonLex v) := by
+  have hd := store_dagjson_domain H codecs fmtF lex s p v l (by rw [hs]) hp
+  obtain ⟨b, he, _, hl⟩ := load_store H codecs s p v l (dagjsonCodec fmtF lex) hs hc hp
+  rw [hl]
+  have rt := Ipld.Props.C04.tok_roundtrip_win v hx nd hd hcid hdep
+  simp only [dagjsonCodec, Json.encodeJson] at he ⊢
+  cases hm : Json.marshalTok Json.dagjsonEnc v with
+  | none => simp [hm] at he
+  | some ts =>
+    simp only [hm, Option.bind_some] at he rt
+    simp only [hlex ts b hm he, Option.bind_some, rt]
+
+/-- …and any time later (composition with `load_after_history`). -/
+theorem load_after_history_dagjson (fmtF : UInt64 → Option Bytes) (lex : Bytes → Option (List Json.JTok))
+    (s s₁ : Store) (p : Proto) (v : DM) (l : Lnk) (ops : List HOp)
+    (hs : hstep H codecs s (.store p v) = (s₁, .link l))
+    (hc : codecs l.codec = some (dagjsonCodec fmtF lex)) (hp : codecs p.codec = some (dagjsonCodec fmtF lex))
+    (hnc : ∀ op ∈ ops, ∀ b', Writes H codecs op l b' → (dagjsonCodec fmtF lex).encode v = some b')
+    (hx : Spec.Expressible v) (nd : v.NoDup) (hcid : Spec.CidTextOK v) (hdep : Spec.jsonDepth v ≤ 1024)
+    (hlex : ∀ ts b, Json.marshalTok Json.dagjsonEnc v = some ts → Json.emitToks Json.compact fmtF ts = some b →
+      lex b = some ts) :
+    (hstep H codecs (hrun H codecs s₁ ops).1 (.load l)).2 = .node (Spec.canonLex v) := by
+  have hd := store_dagjson_domain H codecs fmtF lex s p v l (by rw [hs]) hp
+  obtain ⟨b, he, _, hl⟩ := load_after_history H codecs s s₁ p v l (dagjsonCodec fmtF lex) ops hs hc hp hnc
+  rw [hl]
+  have rt := Ipld.Props.C04.tok_roundtrip_win v hx nd hd hcid hdep
+  simp only [dagjsonCodec, Json.encodeJson] at he ⊢
+  cases hm : Json.marshalTok Json.dagjsonEnc v with
+  | none => simp [hm] at he
+  | some ts =>
+    simp only [hm, Option.bind_some] at he rt
+    simp only [hlex ts b hm he, Option.bind_some, rt]
+
+/-! Non-vacuity for DAG-JSON: the value `C04.ex` (a four-entry map in non-canonical order holding bytes, a
+    link, a nested map and a list), its compact JSON text, and a "tokenizer" that knows this one text. -/
+
+def exJsonBytes : Bytes :=
+  [123, 34, 97, 34, 58, 123, 34, 47, 34, 58, 34, 98, 97, 102, 107, 113, 97, 97, 97, 34, 125, 44, 34, 98, 34, 58, 123,
+   34, 47, 34, 58, 123, 34, 98, 121, 116, 101, 115, 34, 58, 34, 65, 81, 73, 68, 34, 125, 125, 44, 34, 108, 34, 58, 91,
+   116, 114, 117, 101, 44, 110, 117, 108, 108, 93, 44, 34, 109, 34, 58, 123, 34, 47, 34, 58, 34, 120, 34, 44, 34, 107, 34,
+   58, 49, 125, 125]
+
+def exLex : Bytes → Option (List Json.JTok) := fun b => if b = exJsonBytes then some C04.exToks else none
+
+theorem ex_marshal : Json.marshalTok Json.dagjsonEnc C04.ex = some C04.exToks := by
+  rw [C04.marshalTok_canonical C04.ex C04.ex_domain C04.ex_nodup, show Spec.canonLex C04.ex = C04.ex' by decide]
+  simp [Json.ordToks, Json.ordToksKVs, Json.ordToksList, C04.ex', C04.exToks]
+  decide
+
+theorem ex_encode : (dagjsonCodec (fun _ => none) exLex).encode C04.ex = some exJsonBytes := by
+  show (Json.marshalTok Json.dagjsonEnc C04.ex).bind (Json.emitToks Json.compact (fun _ => none)) = _
+  rw [ex_marshal]; rfl
+
+example :
+    let cs : Nat → Option Codec := fun _ => some (dagjsonCodec (fun _ => none) exLex)
+    let p : Proto := ⟨1, 0x0129, 0x12, -1⟩
+    let l : Lnk := ⟨1, 0x0129, 0x12, [85, 123]⟩
+    (hstep toyHash cs [] (.store p C04.ex)).2 = .link l ∧
+    (hstep toyHash cs (Store.put [] l exJsonBytes) (.load l)).2 = .node C04.ex' ∧ C04.ex ≠ C04.ex' := by
+  intro cs p l
+  have hs : hstep toyHash cs [] (.store p C04.ex) = (Store.put [] l exJsonBytes, .link l) :=
+    hstep_store_of toyHash cs (c := dagjsonCodec (fun _ => none) exLex) rfl ex_encode (by decide)
+  have := load_store_dagjson toyHash cs (fun _ => none) exLex [] p C04.ex l hs rfl rfl C04.ex_expressible C04.ex_nodup
+    C04.ex_cid (by decide)
+    (fun ts b hm hb => by
+      rw [ex_marshal] at hm; cases hm
+      have : b = exJsonBytes := by
+        have e : Json.emitToks Json.compact (fun _ => none) C04.exToks = some exJsonBytes := by rfl
+        rw [e] at hb; exact (Option.some.inj hb).symm
+      subst this
+      simp [exLex])
+  rw [show Spec.canonLex C04.ex = C04.ex' by decide] at this
+  exact ⟨by rw [hs], this, by decide⟩
+
+/-- `link_perm_dagjson` on the same data: the two entry orders get the same link. -/
+example :
+    let cs : Nat → Option Codec := fun _ => some (dagjsonCodec (fun _ => none) exLex)
+    (hstep toyHash cs [] (.compute ⟨1, 0x0129, 0x12, -1⟩ C04.ex)).2 =
+      (hstep toyHash cs [] (.compute ⟨1, 0x0129, 0x12, -1⟩ C04.ex')).2 :=
+  link_perm_dagjson toyHash _ (fun _ => none) exLex [] [] _ C04.ex C04.ex' rfl C04.ex_nodup
+    (by simp [C04.ex', DM.NoDup, DMKVs.NoDupVals, DMKVs.keys, DMKVs.toList, DMs.NoDup, Json.slash]) (by decide)
+
+/-! ## Store and ComputeLink over arbitrary encoder runs -/
+
+/-- Over an arbitrary encoder run (any sequence of writes, any failure): when `Store` commits, the link
+    is the one `ComputeLink` returns on the same run, the committed block is everything the encoder
+    wrote, and it hashes to the link. -/
+theorem store_committed_computeLink (p : Proto) (e : EncRun) (l : Lnk) (b : Bytes)
+    (h : store H p e = .committed l b) :
+    computeLink H p e = some (some l) ∧ b = e.writes.flatten ∧ hashesTo H l b = true := by
+  obtain ⟨hf, _, hb, rfl⟩ := (store_committed_iff H p e l b).mp h
+  exact ⟨by simp [computeLink, hf, hb], rfl, buildLink_hashesTo H p _ l hb⟩
+
+/-- Conversely, when `ComputeLink` returns a link and no storage write fails, `Store` commits under
+    that link. -/
+theorem computeLink_store (p : Proto) (e : EncRun) (l : Lnk) (h : computeLink H p e = some (some l))
+    (hw : ∀ j, e.writerFailsAt = some j → e.writes.length ≤ j) :
+    store H p e = .committed l e.writes.flatten := by
+  unfold computeLink at h
+  cases hf : e.encFails with
+  | true => simp [hf] at h
+  | false =>
+    simp only [hf, Bool.false_eq_true, if_false, Option.some.injEq] at h
+    exact (store_committed_iff H p e l _).mpr ⟨hf, hw, h, rfl⟩
+
+/-- How the encoder cuts its output into writes (a property of the node implementation and of the
+    encoder's buffering, not of the value) does not matter: two failure-free runs that write the same bytes
+    in total have the same outcome. -/
+theorem store_chunking_irrelevant (p : Proto) (e e' : EncRun) (hf : e.writes.flatten = e'.writes.flatten)
+    (h1 : e.encFails = false) (h2 : e'.encFails = false) (h3 : e.writerFailsAt = none) (h4 : e'.writerFailsAt = none) :
+    store H p e = store H p e' ∧ computeLink H p e = computeLink H p e' := by
+  simp [store, computeLink, h1, h2, h3, h4, hf]
+
+example : store toyHash toyP ⟨[[0xf5], [0x00]], false, none⟩ = .committed ⟨1, 0x55, 0x12, [2, 0xf5]⟩ [0xf5, 0x00] ∧
+    store toyHash toyP ⟨[[0xf5, 0x00]], false, none⟩ = .committed ⟨1, 0x55, 0x12, [2, 0xf5]⟩ [0xf5, 0x00] ∧
+    computeLink toyHash toyP ⟨[[], [0xf5, 0x00]], false, some 7⟩ = some (some ⟨1, 0x55, 0x12, [2, 0xf5]⟩) := by decide
 
 
 /-! ## (T) the transcribed functions as they are in the source on this run -/
